@@ -30,7 +30,7 @@ def expected(lines, keyf, fn):
 def run(ctx):
     rng = ctx.rng
     cases = []
-    keys = [b"k1", b"k2", b"k3"]
+    keys = [b"k1", b"", b"k3"]            # the empty line is a key (and an answer) like any other
     maxn = 6 if ctx.tier == "quick" else 7
     pats = []
     for n in range(0, maxn + 1):
@@ -66,7 +66,7 @@ def run(ctx):
         # input), and sometimes a last line without terminator
         eol = b"\r\n" if (i % 4 == 1 and not any(l.endswith(b"\r") for l in lines)) else b"\n"
         data = b"".join(l + eol for l in lines)
-        if lines and i % 5 == 2:
+        if lines and lines[-1] and i % 5 == 2:
             data = data[:-len(eol)]
         log = os.path.join(ctx.tmp, "child_in.log")
         if os.path.exists(log):
